@@ -85,8 +85,9 @@ CLAIMS = {
     "C12": dict(
         technique="Coq proof of the hiding statements that hold (LIST both forms, NAMES contribution, WHO by channel name) and a machine-checked refutation for NAMES with an explicit name + two-world differential check on the real server",
         text="Theorems (props/C12.v): LIST (explicit and bare) answers an outsider exactly as in the world without the secret channel; NAMES contributes no line for a secret channel to a non-member; "
-             "WHO #secret gives the bare 315 in both worlds. C12_names_explicit_refuted proves that NAMES #secret is silent while NAMES #absent answers 366, for every state: the recorded finding. "
-             "All remaining forms (comma lists, wildcard WHO, WHOIS, invisible users) are decided per run by executing both worlds on the real server and comparing the outsider's view (L2).",
+             "WHO #secret gives the bare 315 in both worlds; WHOIS never lists a secret channel whoever asks; an invisible user sharing no channel with the asker gets an empty WHOIS and is not "
+             "listed by NAMES to outsiders. C12_names_explicit_refuted proves that NAMES #secret is silent while NAMES #absent answers 366, for every state: the recorded finding. "
+             "All remaining forms (comma lists, wildcard WHO and WHOIS masks) are decided per run by executing both worlds on the real server and comparing the outsider's view (L2).",
         design_ref="5 (C12)",
         note="Partial at proof level (theorem names end in _partial); one known finding, listed in known_findings.json."),
     "C15": dict(
@@ -106,14 +107,15 @@ CLAIMS = {
         note="Partial at proof level: the ISON/USERHOST texts are checked on traces, not proved."),
     "C13": dict(
         technique="Coq proof (tokenizer inverse of the relay serialiser by induction over blank-led tokens; well-formedness of every tokenised message; per-verb classification by case analysis over 41 verbs and arities) + grammar oracle, re-parse oracle, CRLF oracle and segmentation pairs on the real code",
-        text="Theorems (props/C13.v): every message out of the tokenizer has a non-empty, blank-free command and middle parameters not starting with ':'; serialising such a message with a source "
-             "and tokenising the result gives back exactly source, command and parameters, for every trailing text (C13_serialise_parse, C13_relay_reparses); a verb outside the table is answered 421 "
+        text="Theorems (props/C13.v): every message out of the tokenizer has a non-empty, blank-free command and middle parameters not starting with ':'; every line of the grammar - leading blanks, optional ':'source, "
+             "command, middle parameters separated by blank runs of any kind and length, optional ' :'-introduced trailing text of any content, trailing blanks - is tokenised to exactly its parts "
+             "(C13_grammar_complete); serialising a message with a source and tokenising the result gives back exactly source, command and parameters (C13_serialise_parse, C13_relay_reparses); a verb outside the table is answered 421 "
              "with the upper-cased name, a known verb with fewer parameters than its arity 461, and with enough parameters the line is executed as exactly that verb or answered with a "
              "parameter-specific error - never 421/461 (all 41 verbs, every arity); an unparsable line changes nothing and an empty line is ignored; the framing model (split at LF, strip CR, 2000-byte limit) yields the same "
-             "frames however the byte stream is cut into segments, and an over-long line is reported as such, never executed (C13_segmentation_invariant, C13_overlong_not_executed). CRLF termination, "
-             "blank runs of any kind against the grammar and the format!-built relays (PART, KICK, 301) are decided per run on the real server (L2); the framing model is the one the extracted program runs against the real LinesCodec.",
+             "frames however the byte stream is cut into segments, and an over-long line is reported as such, never executed (C13_segmentation_invariant, C13_overlong_not_executed). CRLF termination "
+             "and the format!-built relays (PART, KICK, 301) are decided per run on the real server (L2); the framing model is the one the extracted program runs against the real LinesCodec.",
         design_ref="5 (C13)",
-        note="Partial at proof level: CRLF emission and arbitrary blank runs are checked by oracles, not proved; the python grammar oracle is part of the check's trusted base."),
+        note="Partial at proof level: CRLF emission and the format!-built relays are checked by oracles, not proved; the python grammar oracle is part of the check's trusted base."),
     "C20": dict(
         technique="Coq proof (the validation model accepts exactly the conjunction the statement lists; shape of a well-formed hash; configured channels and default user modes in the state model) + differential validation of generated configuration files and command lines, and start-up / -g / plain-vs-TLS runs of the real binary",
         text="Theorems (props/C20.v): config_accept holds iff the TLS certificate and key options come together, the effective (command-line overridden) server name contains a dot, every password "
